@@ -719,8 +719,8 @@ Theorem impl_two_live_refuted :
   = ([], Some 2, [2; 1], [2; 1], [(0, RSuccess); (1, RSuccess)]).
 Proof. vm_compute. reflexivity. Qed.
 
-(* a refused request clears the slot of the running one: the third request is admitted *)
-Theorem impl_refusal_admits_next_refuted :
+(* a refused request clears the slot of the running one: the third request is let in *)
+Theorem impl_refusal_starts_next_refuted :
   proj (Conc.run [impl_request 0 1; impl_request 1 2; impl_request 2 2]
             [0; 0; 0; 1; 1; 1; 1; 2; 2; 2] start_cst)
   = ([2; 0], Some 0, [0], [2; 1; 0], [(1, RInProgress)]).
